@@ -104,14 +104,36 @@ pub fn configs18() -> Vec<Cfg18> {
     for (ch, tonal) in [(8u8, 0u8), (8, 7), (6, 0), (5, 0), (3, 1)] {
         v.push(Cfg18 { name: format!("clicks-ch{}-tonal{}-lpc8", ch, tonal), stream_api: false, ch, bps: 16, lpc: Some(8), mid_side: true, fast: false, signal: CLICKS + tonal as u32, frames: 768, block: 256, window: 0 });
     }
+    // one tonal channel (LPC wins there) next to channels holding a non-zero constant (FIXED residuals all zero): the two kinds
+    // of subframe whose by-products differ most — whatever a task leaves behind for "the next one" matters here
+    for (ch, tonal, mid_side, fast) in [(2u8, 0u8, true, false), (2, 1, true, false), (2, 0, false, false), (2, 0, false, true), (3, 0, true, false), (6, 2, true, false), (8, 0, true, false)] {
+        v.push(Cfg18 { name: format!("dcmix-ch{}-tonal{}-{}{}-lpc8", ch, tonal, if mid_side { "ms" } else { "noms" }, if fast { "-fast" } else { "" }), stream_api: false, ch, bps: 16, lpc: Some(8), mid_side, fast, signal: DCMIX + tonal as u32, frames: 512, block: 256, window: 0 });
+    }
     v
 }
 
+pub const DCMIX: u32 = 3_000_000;
 pub const CLICKS: u32 = 2_000_000;
 pub const HETERO: u32 = 1_000_000;
 pub const SWEEP_SIGNALS: usize = 120;
 
 pub fn pcm18(c: &Cfg18) -> Vec<i32> {
+    if c.signal >= DCMIX {
+        let tonal = (c.signal - DCMIX) as usize;
+        let mut lcg: u32 = 0x1234_5678;
+        return (0..c.frames * c.ch as usize)
+            .map(|k| {
+                let (i, ch) = (k / c.ch as usize, k % c.ch as usize);
+                if ch == tonal {
+                    lcg = lcg.wrapping_mul(1_664_525).wrapping_add(1_013_904_223);
+                    let t = i as f64;
+                    (9000.0 * (t * 0.031).sin() + 5000.0 * (t * 0.0713).sin()) as i32 + ((lcg >> 24) as i32 - 128) / 16
+                } else {
+                    101 + 50 * ch as i32
+                }
+            })
+            .collect();
+    }
     if c.signal >= CLICKS {
         let tonal = (c.signal - CLICKS) as usize;
         let mut lcg: u32 = 0x1234_5678;
